@@ -19,13 +19,15 @@ case "$variant" in
   tsan)  FLAGS="-O1 -g1 -fno-omit-frame-pointer -fsanitize=thread -DCELERITAS_VERIF" ;;
   *) echo "unknown variant $variant" >&2; exit 2 ;;
 esac
+# measurement builds only (bin/coverage.sh): extra flags such as --coverage, in a separate build root
+FLAGS="$FLAGS${VERIF_EXTRA_FLAGS:+ $VERIF_EXTRA_FLAGS}"
 
 exec 9>"$B/.lock"
 flock 9
 
 log="$B/build.log"
 # configuration key: repo, explicit engine list, and the set of engines that register checks
-cfgkey="$REPO|${VERIF_ENGINES:-}|$(cd "$VERIF_ROOT" && ls engines/*/checks.json 2>/dev/null | tr '\n' ' ')"
+cfgkey="$REPO|${VERIF_ENGINES:-}|${VERIF_EXTRA_FLAGS:-}|$(cd "$VERIF_ROOT" && ls engines/*/checks.json 2>/dev/null | tr '\n' ' ')"
 do_build() {
   if [ ! -f "$B/build.ninja" ] || [ "$(cat "$B/.repo" 2>/dev/null)" != "$cfgkey" ]; then
     if [ "$(cut -d'|' -f1 "$B/.repo" 2>/dev/null)" != "$REPO" ]; then
